@@ -112,7 +112,7 @@ def the_record():
 
         d = RecordDescriptor("c08/rec", [(t, n) for t, n, _ in FIELDS])
         inner = RecordDescriptor("c08/inner", [("string", "a")])("in", _generated=GEN)
-        _REC = d(*[inner if v == "<nested>" else v for _, _, v in FIELDS], _generated=GEN)
+        _REC = d(*[inner if v == "<nested>" else v for _, _, v in FIELDS], _generated=GEN, _source="hello-src")
     return _REC
 
 
@@ -170,7 +170,7 @@ HELPER_CALLS = [
     ("field_regex", "field_regex(r, {F}, 'h.l+o')"),
     ("field_regex", "field_regex(r, {F}, '^zzz$')"),
 ]
-PRESENT = ["s", "u"]
+PRESENT = ["s", "u", "_source"]
 MISSING = ["nope", "nope2"]
 
 
@@ -206,11 +206,19 @@ def check_helper(case, ctx):
     rec = the_record()
     ctx.nontriv()
     ctx.cls("helper:" + case["helper"], "engine:" + case["engine"])
+    from vlib import selgen
+
     a = impl(lambda: make(case["engine"], case["with"]).match(rec))
     b = impl(lambda: make(case["engine"], case["without"]).match(rec))
     if not b.ok:
         raise RuntimeError("harness: reference expression raised: %s %r" % (case["without"], b))
     base = "%s/helper/%s" % (case["engine"], case["helper"])
+    if case["helper"] != "misc":
+        # absolute expectation from /verif's own helper implementations (written from the docstrings)
+        ref = impl(selgen.reference_eval, case["with"], rec)
+        if ref.ok and a.ok and bool(ref.value) != bool(a.value):
+            raise Violation(base + "/differs-from-reference", "%s -> %r, reference helper gives %r"
+                            % (case["with"], a.value, ref.value))
     if not a.ok:
         raise Violation(base + "/raised:" + a.type, "%s raised %r" % (case["with"], a))
     if bool(a.value) != bool(b.value):
